@@ -298,14 +298,16 @@ def r3_load(report, repo):
   loops = [n for n in walk_no_nested(f.node) if isinstance(n, ast.For)]
   report.expect_instances(rule, len(loops), 1, 'load loops')
   key = dotted(loops[0].target.elts[0])
+  keys = lib.copy_class(f, key)
 
   def classify(expr, steps):
-    m = _membership(expr, key, '_declarations')
-    if m:
-      return 'declared' if m == 'in' else ('not', 'declared')
-    m = _membership(expr, key, '_loaded_values')
-    if m:
-      return 'already' if m == 'in' else ('not', 'already')
+    for k_ in keys:
+      m = _membership(expr, k_, '_declarations')
+      if m:
+        return 'declared' if m == 'in' else ('not', 'declared')
+      m = _membership(expr, k_, '_loaded_values')
+      if m:
+        return 'already' if m == 'in' else ('not', 'already')
     d = dotted(expr)
     if d == '_allow_undeclared':
       return 'allow'
@@ -330,7 +332,8 @@ def r3_load(report, repo):
                v['already'], v['override']))
     if stores:
       s = stores[0].ast
-      if dotted(s.targets[0].slice) != key or not isinstance(s.value, ast.Name):
+      if dotted(s.targets[0].slice) not in keys or not isinstance(
+          s.value, ast.Name):
         return 'store-row: must store the value under its key'
     return None
 
